@@ -306,15 +306,6 @@ theorem parse_fuel_enough (root : Mod) (words : List String) :
 
 /-! ### binding words to parameters -/
 
-/-- the analyzer's rules for parameter lists: a variadic parameter is last, and no requiredCount
-parameter follows a defaulted one -/
-def validParams : List Param → Bool
-  | [] => true
-  | p :: ps =>
-    (if p.isVariadic then ps.isEmpty else true) &&
-    (if p.default.isSome then ps.all (fun q => q.default.isSome || q.kind = .star) else true) &&
-    validParams ps
-
 def requiredCount (ps : List Param) : Nat :=
   (ps.filter (fun p => p.default.isNone && p.kind != .star)).length
 
